@@ -45,6 +45,8 @@ def main():
         sys.exit(setup())
     if not a.pid:
         ap.error("property id required")
+    if a.replay:
+        sys.exit(core.replay(a.replay))
     seed = int(os.environ.get("VERIF_SEED", "1") or "1")
     ctx = core.Ctx(a.pid, a.tier, seed, a.replay)
     try:
